@@ -549,6 +549,56 @@ static void simple_case(uint64_t m, unsigned rep) {
   case_end(1);
 }
 
+// a contiguous vector of vectors of more than 4 GiB (row counts are quantified up to N): the source is a lazily backed mapping of
+// which only the block columns that the call reads are written, so the case costs a few hundred MiB of page tables and touched
+// pages, not 4 GiB; every row's block must be that row's data (offsets computed in 32 bits wrap at the 4 GiB row)
+#include <sys/mman.h>
+static void huge_rows_case(uint64_t m, uint64_t nrows, int avx, int slmode, unsigned rep) {
+  char key[128];
+  snprintf(key, sizeof key, "reim4_extract_1blk_from_contiguous_reim%s_%s|rows spanning more than 4 GiB", slmode ? "_sl" : "", avx ? "avx" : "ref");
+  if (!case_begin(key, "m=%" PRIu64 " nrows=%" PRIu64 " rep=%u", m, nrows, rep)) return;
+  const uint64_t sl = slmode ? 2 * m + 8 : 2 * m;
+  const size_t bytes = ((nrows - 1) * sl + 2 * m) * 8 + 8192;
+  double* src = mmap(0, bytes, PROT_READ | PROT_WRITE, MAP_PRIVATE | MAP_ANONYMOUS | MAP_NORESERVE, -1, 0);
+  if (src == MAP_FAILED) {
+    cnt("huge_mapping_refused", 1);
+    case_end(0);
+    return;
+  }
+  const uint64_t blk = (m / 4 - 1) - (rep % 3);
+  // rows: the first and last few, the rows around every multiple of 2^32 bytes, and a sample in between
+  uint64_t* rows = malloc(4096 * 8);
+  size_t nr = 0;
+  const uint64_t row_bytes = sl * 8, per4g = (1ull << 32) / row_bytes;
+  for (uint64_t r0 = 0; r0 < 4 && r0 < nrows; r0++) rows[nr++] = r0;
+  for (uint64_t k = 1; k * per4g < nrows + 2; k++)
+    for (int64_t d = -2; d <= 2; d++) {
+      const int64_t rr = (int64_t)(k * per4g) + d;
+      if (rr >= 0 && (uint64_t)rr < nrows) rows[nr++] = (uint64_t)rr;
+    }
+  for (uint64_t r0 = nrows > 3 ? nrows - 3 : 0; r0 < nrows; r0++) rows[nr++] = r0;
+  for (size_t q = 0; q < nr; q++)
+    for (int i = 0; i < 8; i++) src[rows[q] * sl + (i >= 4 ? m : 0) + 4 * blk + (uint64_t)(i & 3)] = (double)(rows[q] * 16 + (uint64_t)i) + 0.5;
+  double* dst = malloc(nrows * 64);
+  memset(dst, 0x5B, nrows * 64);
+  if (slmode)
+    (avx ? reim4_extract_1blk_from_contiguous_reim_sl_avx : reim4_extract_1blk_from_contiguous_reim_sl_ref)(m, sl, nrows, blk, dst, src);
+  else
+    (avx ? reim4_extract_1blk_from_contiguous_reim_avx : reim4_extract_1blk_from_contiguous_reim_ref)(m, nrows, blk, dst, src);
+  uint64_t bad = 0;
+  for (size_t q = 0; q < nr; q++)
+    for (int i = 0; i < 8; i++)
+      if (dst[rows[q] * 8 + (uint64_t)i] != (double)(rows[q] * 16 + (uint64_t)i) + 0.5 && bad++ < 2)
+        viol("oracle", "extract (%s, %s): m=%" PRIu64 ", %" PRIu64 " rows (%.2f GiB): row %" PRIu64 " slot %d holds %.17g, not the value stored in that row (%.17g)", avx ? "avx" : "ref", slmode ? "strided" : "contiguous", m, nrows,
+             (double)bytes / 0x1p30, rows[q], i, dst[rows[q] * 8 + (uint64_t)i], (double)(rows[q] * 16 + (uint64_t)i) + 0.5);
+  cnt("rows_checked_in_vectors_over_4GiB", nr);
+  sample("%" PRIu64 " rows of %" PRIu64 " bytes (%.2f GiB): %zu rows around the 4 GiB multiples and at both ends identified", nrows, row_bytes, (double)bytes / 0x1p30, nr);
+  free(dst);
+  free(rows);
+  munmap(src, bytes);
+  case_end(1);
+}
+
 void run_C17(void) {
   const int th = G.thorough;
   {
@@ -644,4 +694,11 @@ void run_C17(void) {
       ops_small_stack_case("C17 entry points", RNAMES, (int)ARRAY_LEN(RNAMES), 16384, cfg, 256, G.thorough ? 4 : 2, 1, "small_stack_calls");
     }
   }
+  // vectors of vectors of more than 4 GiB
+  for (int avx = 0; avx <= 1; avx++)
+    for (int slmode = 0; slmode <= 1; slmode++) {
+      huge_rows_case(65536, 4100, avx, slmode, 0);
+      huge_rows_case(16384, 16500, avx, slmode, 1);
+      if (G.thorough) huge_rows_case(65536, 8200, avx, slmode, 2);
+    }
 }
